@@ -62,6 +62,16 @@ class P(Prop):
             hl = rng.randint(1, 40 if tier == "quick" or rng.random() < 0.9 else 400)
             xs = history(rng, es, hl, nan=self.NAN)
             out.append(dict(op="evaluator", ty=ty, segs=sg, xs=xs, meta={"class": "evaluator/" + ty}))
+        # long functions: forward runs followed by backward jumps over many breakpoints (and back again)
+        for k in (17, 18, 19, 33, 40, 65, 100):
+            es, sg = G.tag_segs(rng, k, "ints")
+            lo, hi = es[0], es[-1]
+            xs = []
+            for _ in range(10):
+                a = rng.uniform(lo - 1, hi + 1)
+                b = rng.uniform(lo - 1, hi + 1)
+                xs += [C.bits(max(a, b)), C.bits(min(a, b)), C.bits(min(a, b) + rng.choice([0.0, 0.5, 1.0, 2.5])), C.bits(rng.choice(es))]
+            out.append(dict(op="evaluator", ty="Poly0", segs=sg, xs=xs, meta={"class": "evaluator/long"}))
         return out
 
     def coq_term(self, case, h):
